@@ -192,6 +192,20 @@ fn run_single<A: Alphabet>(alpha: &'static str, ctx: &mut Ctx, rep: &mut Report,
             return;
         }
     }
+    // lengths that an f32 cannot represent (above 2^24): row counts derived through floating point go wrong there
+    if alpha == "dna" {
+        for &len in &[(1usize << 24) + 1, (1usize << 24) + 33, (1usize << 25) + 65] {
+            for cfg in [SCfg::GenU32, SCfg::AvxU32, SCfg::DispGen, SCfg::DispAvx] {
+                let idx = *base;
+                *base += 1;
+                if !ctx.mine(idx) || (ctx.quick() && len > (1 << 25)) {
+                    continue;
+                }
+                let case = SingleCase { alpha, cfg, len, pat: 3, wild: false, wraps: vec![4] };
+                run_single_case::<A>(&case, rep);
+            }
+        }
+    }
 }
 
 // ---------------------------------------------------------------------------
@@ -417,7 +431,7 @@ pub fn run(ctx: &mut Ctx, rep: &mut Report) {
     if ctx.wants("single") {
         rep.space(
             "single",
-            "product: alphabet {DNA,protein} x striping configuration {generic U1,U2,U4,U16,U32; avx2 U32; dispatcher arms generic/sse2/avx2} x every length 0..=2200 (thorough 0..=8300) \
+            "product: alphabet {DNA,protein} x striping configuration {generic U1,U2,U4,U16,U32; avx2 U32; dispatcher arms generic/sse2/avx2} x every length 0..=2200 (thorough 0..=8300), plus DNA sequences of 2^24+1 and 2^24+33 (thorough 2^25+65) symbols (lengths an f32 cannot hold) for the 32-lane configurations \
              x digit patterns (symbol i = floor(i/(K-1)^p) mod (K-1), p < ceil(log_{K-1}(L+1)); wildcard injected at i%7==3 for p<=1) x configure_wrap sequences; \
              oracle: linear-sequence model (layout, wildcard padding, look-ahead rows, Index, count_symbol(s)); non-trivial = L>0; cases are distinct by construction",
         );
